@@ -425,4 +425,43 @@ theorem C06_bootstrap_first (answer : Bytes → Option Bytes) (topics : List Byt
 example : syncParts [(1, 0), (2, 1)] [⟨0, 1, 2, [], []⟩, ⟨0, 0, 1, [], []⟩] [UNKNOWN, UNKNOWN] = some [0, 1] := by decide
 example : lastFor [⟨0, 1, 2, [], []⟩, ⟨0, 0, 1, [], []⟩] 1 = some ⟨0, 1, 2, [], []⟩ := by decide
 
+/-! ### led partitions keep their ids -/
+
+theorem mem_range_zip {α} (ps : List α) (i : Nat) (b : α) :
+    (i, b) ∈ (List.range ps.length).zip ps ↔ ps[i]? = some b := by
+  constructor
+  · intro h
+    obtain ⟨k, hk⟩ := List.mem_iff_getElem?.mp h
+    rw [List.getElem?_zip_eq_some] at hk
+    obtain ⟨h1, h2⟩ := hk
+    have : k = i := by
+      rw [List.getElem?_range] at h1
+      · simpa using h1
+      · have := (List.getElem?_eq_some_iff.mp h2).1; exact this
+    subst this; exact h2
+  · intro h
+    apply List.mem_iff_getElem?.mpr
+    refine ⟨i, ?_⟩
+    rw [List.getElem?_zip_eq_some]
+    have hlt := (List.getElem?_eq_some_iff.mp h).1
+    exact ⟨by rw [List.getElem?_range hlt], h⟩
+
+/-- **what is asked where** (`fetch_offsets`, `list_offsets`, the producer's view): the led partitions of a known topic are
+    exactly its partitions whose leader is a known broker, each under its *own* id and with its *own* leader's host;
+    a partition without a leader is absent and does not shift the ids behind it -/
+theorem C06_led_partitions (s : ClientState) (t : Bytes) (ps : List Nat) (h : assocGet s.topics t = some ps) (i : Nat) (host : Bytes) :
+    (((i : Nat) : Int), host) ∈ (s.ledPartitions t).getD [] ↔
+      ∃ b br, ps[i]? = some b ∧ s.brokers[b]? = some br ∧ br.host = host := by
+  simp only [ClientState.ledPartitions, h, Option.map_some, Option.getD_some, List.mem_filterMap]
+  constructor
+  · rintro ⟨⟨j, b⟩, hm, hf⟩
+    cases hb : s.brokers[b]? with
+    | none => simp [hb] at hf
+    | some br =>
+      simp only [hb, Option.map_some, Option.some.injEq, Prod.mk.injEq] at hf
+      have hj : j = i := by have := hf.1; omega
+      subst hj
+      exact ⟨b, br, (mem_range_zip ps j b).mp hm, hb, hf.2⟩
+  · rintro ⟨b, br, hp, hb, hh⟩
+    exact ⟨(i, b), (mem_range_zip ps i b).mpr hp, by simp [hb, hh]⟩
 end Kafka.Props.C06
